@@ -28,14 +28,53 @@ type gen struct {
 	nNodes, nClaims, nPods int
 	count                  func(string)
 	histOK                 bool   // the premise hist_ok of the theorem, mirrored on the real cache
+	markFail               string // a Mark/Unmark call that did not reach a tracked id
+	stale                  bool   // some pod delivery had the shape stale_rewrite
 	histWhy                string // first reason it failed
 	roundStart             int    // index in ops where the closing round starts (-1: none)
 	roundEnd               int
 }
 
-func (g *gen) observe(tag string) {
+func (g *gen) observe(tag string, belief bool) {
 	d := g.w.cluster.VerifC11Dump()
-	g.ops = append(g.ops, Op{Kind: "Obs", Obs: &d, Tag: tag})
+	sets, mp := g.w.cluster.NodePoolState.VerifC11Dump()
+	g.ops = append(g.ops, Op{Kind: "Obs", Obs: &d, Tag: tag, NSets: sets, NMap: mp, Belief: belief})
+}
+
+// staleRewrite mirrors C11.Check.stale_rewrite on the real cache (evaluated before a pod delivery).
+func (g *gen) staleRewrite(o Op) bool {
+	if o.Kind != "DeliverPod" {
+		return false
+	}
+	p, ok := g.w.pods[o.Name]
+	if !ok || p.Terminal || p.Node == "" {
+		return false
+	}
+	d := g.w.cluster.VerifC11Dump()
+	sn, ok := d.Nodes[d.NodeNameToPID[p.Node]]
+	if !ok {
+		return false
+	}
+	key := podKey(o.Name)
+	if _, has := sn.PodRequests[key]; !has {
+		return false
+	}
+	if _, ds := sn.DaemonSetRequests[key]; ds && !p.DS {
+		return true
+	}
+	if _, cost := sn.DisruptionCosts[key]; cost && p.DS {
+		return true
+	}
+	for _, v := range sn.PodVolumes[key] {
+		found := false
+		for _, w := range p.VolsRes {
+			found = found || v == w
+		}
+		if !found {
+			return true
+		}
+	}
+	return false
 }
 
 // opOK mirrors C11.Proofs.op_ok (C11.Check.op_ok_b) on the real cache: what the environment must respect
@@ -104,6 +143,9 @@ func (g *gen) opOK(o Op) {
 		if x, ok := d.ClaimNameToPID[cl.Name]; ok && x != "" && cl.PID == "" {
 			fail("launched-claim-loses-its-provider-id")
 		}
+		if _, mp := g.w.cluster.NodePoolState.VerifC11Dump(); mp[cl.Name] != "" && mp[cl.Name] != cl.Pool {
+			fail("claim-nodepool-label-changes")
+		}
 	}
 }
 
@@ -124,8 +166,22 @@ func (g *gen) podsSettled() bool {
 func (g *gen) emit(o Op) {
 	g.branch(o)
 	g.opOK(o)
+	if g.staleRewrite(o) {
+		g.stale = true
+		g.count("br:UpdatePod:rewritten-on-same-node-leaves-stale-entry")
+	}
 	g.ops = append(g.ops, o)
 	g.w.apply(o)
+	if o.Kind == "Mark" || o.Kind == "Unmark" {
+		// deletion marks are in-memory state: the recomputation cannot see them, so they get their own oracle
+		// (marks_reach_every_tracked_id): every tracked id of the list carries the new mark, wherever untracked ids sit
+		d := g.w.cluster.VerifC11Dump()
+		for _, id := range o.IDs {
+			if sn, ok := d.Nodes[id]; ok && sn.MarkedField != (o.Kind == "Mark") && g.markFail == "" {
+				g.markFail = fmt.Sprintf("%s%v left provider id %s with markedForDeletion=%v", o.Kind, o.IDs, id, sn.MarkedField)
+			}
+		}
+	}
 	switch o.Kind {
 	case "SetNode":
 		g.touch("N/" + o.Node.Name)
@@ -453,9 +509,21 @@ func (g *gen) stepMark() {
 	if len(ids) == 0 {
 		return
 	}
-	pick := []string{kit.Pick(g.r, ids)}
-	if g.r.Chance(1, 4) {
-		pick = append(pick, kit.Pick(g.r, ids), "nope")
+	// id lists with untracked ids in every position (first, middle, last, only)
+	var pick []string
+	switch g.r.Intn(8) {
+	case 0:
+		pick = []string{"nope", kit.Pick(g.r, ids)}
+	case 1:
+		pick = []string{kit.Pick(g.r, ids), "nope", kit.Pick(g.r, ids)}
+	case 2:
+		pick = []string{kit.Pick(g.r, ids), kit.Pick(g.r, ids), "nope"}
+	case 3:
+		pick = []string{"nope", "gone", kit.Pick(g.r, ids), "nope", kit.Pick(g.r, ids)}
+	case 4:
+		pick = []string{"nope"}
+	default:
+		pick = []string{kit.Pick(g.r, ids)}
 	}
 	if g.r.Chance(3, 5) {
 		g.emit(Op{Kind: "Mark", IDs: pick})
